@@ -60,7 +60,8 @@ def required(tier):
           'nox:per-point-atmosphere', 'nox:permutation', 'hcco:per-point-atmosphere',
           'hcco:permutation', 'ffm2:array', 'hcco:calibration-flows-equal-up-to-rounding',
           'thrust-mode-values:non-standard-insertion-order', 'hcco:idle-and-approach-EI-equal',
-          'nox:nonpositive-flow:very-small-engine']
+          'nox:nonpositive-flow:very-small-engine', 'atmospheric-state:buffer-reused-first',
+          'atmospheric-state:read-first', 'scope11:by-pass-ratio-missing-for-unmixed-engine']
     cl += [f'hcco:{b}' for b in HCCO_BRANCHES]
     return {'classes': cl, 'evaluations': 20000}
 
@@ -230,6 +231,33 @@ def run_shard(spec, rec):
                         else 'isa:array:other')
                 if hv.dtype.kind == 'i':
                     rec.cls('isa:array:integer-altitudes')
+
+            # ---------------- AtmosphericState: a value computed at construction ----------
+            if k % 4 == 1:
+                from AEIC.emissions.types import AtmosphericState
+                nn = rng.randint(1, 6)
+                alt_buf = np.array([gen_alt(rng) for _ in range(nn)])
+                tas_buf = np.array([rng.uniform(60, 280) for _ in range(nn)])
+                alt0, tas0 = alt_buf.copy(), tas_buf.copy()
+                state = AtmosphericState(alt_buf, tas_buf)
+                mode_ = rng.choice(['read-first', 'buffer-reused-first', 'buffer-reused-first'])
+                if mode_ == 'read-first':
+                    _ = (state.pressure, state.temperature, state.mach)
+                # the caller re-uses its work buffers for the next flight
+                alt_buf[:] = np.array([gen_alt(rng) for _ in range(nn)])
+                tas_buf[:] = tas_buf[::-1] * 0.5
+                for i in range(nn):
+                    eT, eP = isa.temperature(float(alt0[i])), isa.pressure(float(alt0[i]))
+                    eM = float(tas0[i]) / math.sqrt(1.4 * 287.05287 * eT)
+                    gT, gP, gM = (float(state.temperature[i]), float(state.pressure[i]),
+                                  float(state.mach[i]))
+                    check(rel_close(gT, eT) and rel_close(gP, eP) and rel_close(gM, eM, 1e-6),
+                          'AtmosphericState does not hold the ISA temperature / pressure / Mach '
+                          'number of the altitudes it was built from',
+                          {'altitude': float(alt0[i]), 'tas': float(tas0[i]),
+                           'got': [gT, gP, gM], 'expected': [eT, eP, eM], 'order': mode_,
+                           'buffer_now': float(alt_buf[i])})
+                rec.cls(f'atmospheric-state:{mode_}')
 
             # ---------------- FFM2 eq. 40 ----------------------------------------------
             ff_cal, flow_kind = gen_flows(rng)
@@ -476,6 +504,11 @@ def run_shard(spec, rec):
             # ---------------- SCOPE11 ---------------------------------------------------------------
             et = rng.choice(['MTF', 'TF', 'TF', 'MTF', 'XX'])
             bpr = rng.uniform(0.2, 12)
+            if et != 'MTF' and rng.random() < 0.15:
+                # the data base has no by-pass ratio for this engine (blank cell -> NaN); the
+                # unmixed-flow equations do not contain it
+                bpr = rng.choice([math.nan, math.inf])
+                rec.cls('scope11:by-pass-ratio-missing-for-unmixed-engine')
             sn = {m: rng.choice([-1.0, 0.0, rng.uniform(0.01, 39), rng.uniform(40, 70),
                                  rng.uniform(0.1, 10), rng.uniform(0.1, 10)]) for m in MODES}
             prof = calculate_PMnvolEI_scope11(tmv(sn), et, bpr)
